@@ -7,6 +7,10 @@
    Program text (harness/h_asserts.cpp reads the same):
      case ID / root D f l ... / op ... / oob PATH i0 i1 ... / end                 PATH = B brackets | C call | T tuple
      case ID / droot D f l ... / dop ... / sroot D f l ... / sop ... / asg KIND / end
+     case ID / cap N / droot D f l ... / dop ... / salias D f l ... / sop ... / asg KIND / end
+        salias = the source root is an array_ref over the DESTINATION's buffer (of at least N elements): the two operands
+        are views of one array (same first element and strides with different extents, overlapping blocks, sub-blocks,
+        rows vs columns, the very same elements)
    Model lines:  S (shapes, as for h_views)   D id n path=P idx=... res=abort|ok rank=R|-
                  A id kind=K xeq=0|1 asrt=0|1 dnel=N snel=M          E id *)
 open Model
@@ -57,14 +61,54 @@ let death_line (id : string) (n : int) (v : view) (path : string) (idx : int lis
       | Some k -> Printf.sprintf "res=abort rank=%d" (r - int_of_nat k) in
   Printf.sprintf "D %s %d path=%s idx=%s %s" id n path (ints idx) verdict
 
+
+(* ---------------- violating view-forming calls ---------------- *)
+(* For the final view of a program: calls OUTSIDE the documented domain of the operation for which the transcribed
+   assertions (asrt_op, coq/Model/Asserts.v) evaluate to false: count > size() for taked / dropped, a slice bound outside
+   the extension (D > 1), a partition that does not divide, halved() of an odd size, call-syntax ranges / indices out of
+   range.  Only candidates with asrt_op = false are emitted (e.g. 1-D sliced has no assertion and is not claimed). *)
+let gen_xop (v : view) : (op * string) list =
+  let ex = exts_of v in
+  let r = List.length ex in
+  if r = 0 then []
+  else begin
+    let (f, l) = List.hd ex in
+    let n = max (l - f) 0 in
+    let mid () = if l > f then rnd_range f (l - 1) else f in
+    let cands =
+      [ (OTaked (z (n + rnd_range 1 3)), "taked_beyond"); (ODropped (z (n + rnd_range 1 3)), "dropped_beyond");
+        (OSliced (z (f - rnd_range 1 2), z (mid () + 1)), "sliced_first_below"); (OSliced (z (mid ()), z (l + rnd_range 1 2)), "sliced_last_beyond");
+        (OSliced (z l, z (l + 1)), "sliced_first_at_last");
+        (OBlocked (z (f - 1), z l), "blocked_first_below"); (OSlicedS (z f, z (l + 2), z 1), "sliceds_last_beyond");
+        (OPartitioned (z 0), "partitioned_zero"); (OPartitioned (z (n + 1)), "partitioned_nondivisor");
+        (OPartitioned (z (if n >= 3 then n - 1 else 2)), "partitioned_nondivisor");
+        (OChunked (z (n + 1)), "chunked_nondivisor"); (OChunked (z (if n >= 3 then n - 1 else 2)), "chunked_nondivisor");
+        (OHalved, "halved_odd");
+        (OParen [ PRange (z (f - 1), z (mid () + 1)) ], "paren_range_below"); (OParen [ PRange (z (mid ()), z (l + 1)) ], "paren_range_beyond");
+        (OParen [ PIdx (z l) ], "paren_index_at_last") ]
+      @ (if r >= 2 then
+           let (f1, l1) = List.nth ex 1 in
+           [ (OParen [ PAll; PRange (z (f1 - 1), z l1) ], "paren_second_range_below"); (OParen [ PAll; PRange (z f1, z (l1 + 1)) ], "paren_second_range_beyond");
+             (OParen [ PAll; PIdx (z l1) ], "paren_second_index_at_last") ]
+         else []) in
+    List.filter (fun (o, _) -> not (asrt_op o v) && (chance 45)) cands
+  end
+
+let xop_line (id : string) (n : int) (v : view) (o : op) : string =
+  Printf.sprintf "O %s %d op=%s res=%s" id n (String.concat "_" (Views.words (Views.op_text o))) (if asrt_op o v then "ok" else "abort")
+
 (* ---------------- assignments ---------------- *)
-type acase = { dexts : (int * int) list; dops : op list; sexts : (int * int) list; sops : op list; kind : string }
+type acase = { dexts : (int * int) list; dops : op list; sexts : (int * int) list; sops : op list; kinds : string list; alias : bool }
+
+(* statements that go through the array_ref overloads (whole contiguous roots, no view operations) *)
+let aref_kinds = [ "aref_lv"; "aref_rv"; "aref_conv_lv"; "aref_conv_rv"; "aref_from_rv"; "aref_rv_from_rv"; "aref_from_array" ]
 
 (* which overload class the harness statement selects (harness/h_asserts.cpp Assigner; coq/Model/Asserts.v akind) *)
 let akind_of = function
   | "assign" | "assign_const" | "assign_rv" | "move" | "assign_move" | "assign_rv_rv" -> AView
-  | "swap" -> ASwap
-  | "assign_elems" | "assign_elems_const" -> AElems
+  | "swap" | "swap_member" -> ASwap
+  | "assign_elems" | "assign_elems_const" | "assign_elems_named" | "swap_elems" | "swap_elems_named" -> AElems
+  | k when List.mem k aref_kinds -> ARef
   | k -> failwith ("bad asg kind " ^ k)
 
 let zr l = List.map (fun (f, l) -> (z f, z l)) l
@@ -73,21 +117,24 @@ let asg_line (id : string) (c : acase) : string option =
   match run_ops c.dops (root_view (zr c.dexts)), run_ops c.sops (root_view (zr c.sexts)) with
   | Some d, Some s when List.length d.lay = List.length s.lay && List.length d.lay >= 1 ->
       let xeq = x_eq (l_extensions d.lay) (l_extensions s.lay) in
-      let a = asrt_assign (akind_of c.kind) d s in
-      Some (Printf.sprintf "A %s kind=%s xeq=%d asrt=%d dnel=%d snel=%d dsizes=%s ssizes=%s" id c.kind (if xeq then 1 else 0)
-              (if a then 1 else 0) (i (l_num_elements d.lay)) (i (l_num_elements s.lay)) (ints (il (l_sizes d.lay)))
-              (ints (il (l_sizes s.lay))))
+      Some (String.concat "\n" (List.map (fun kind ->
+        let a = asrt_assign (akind_of kind) d s in
+        Printf.sprintf "A %s kind=%s alias=%d xeq=%d asrt=%d dnel=%d snel=%d dsizes=%s ssizes=%s" id kind (if c.alias then 1 else 0)
+              (if xeq then 1 else 0) (if a then 1 else 0) (i (l_num_elements d.lay)) (i (l_num_elements s.lay)) (ints (il (l_sizes d.lay)))
+              (ints (il (l_sizes s.lay)))) c.kinds))
   | _ -> None
 
 let asg_text (id : string) (c : acase) : string =
   let b = Buffer.create 256 in
   let ex l = join " " (fun (f, l) -> Printf.sprintf "%d %d" f l) l in
+  let nel l = List.fold_left (fun s (f, l) -> s * max (l - f) 0) 1 l in
   pr b ("case " ^ id);
+  if c.alias then pr b (Printf.sprintf "cap %d" (max (nel c.dexts) (nel c.sexts)));
   pr b (Printf.sprintf "droot %d %s" (List.length c.dexts) (ex c.dexts));
   List.iter (fun o -> pr b ("dop " ^ Views.op_text o)) c.dops;
-  pr b (Printf.sprintf "sroot %d %s" (List.length c.sexts) (ex c.sexts));
+  pr b (Printf.sprintf "%s %d %s" (if c.alias then "salias" else "sroot") (List.length c.sexts) (ex c.sexts));
   List.iter (fun o -> pr b ("sop " ^ Views.op_text o)) c.sops;
-  pr b ("asg " ^ c.kind);
+  List.iter (fun k -> pr b ("asg " ^ k)) c.kinds;
   pr b "end";
   Buffer.contents b
 
@@ -106,37 +153,132 @@ let gen_view (vc : Views.cfg) : (int * int) list * op list * view * string list 
     if (nel <= 400 && List.length !fin.lay <= 4 && List.length !fin.lay >= 1) || tries = 0 then (exts, ops, !fin, kinds) else go (tries - 1) in
   go 30
 
+(* the overload-selecting statements on views (harness/h_asserts.cpp Assigner) *)
+let all_view_kinds = [ "assign"; "assign_const"; "assign_rv"; "move"; "swap"; "swap_member"; "assign_move"; "assign_rv_rv"; "assign_elems";
+                       "assign_elems_const"; "assign_elems_named"; "swap_elems"; "swap_elems_named" ]
+let view_kind () =
+  weighted [ (5, "assign"); (2, "assign_const"); (2, "assign_rv"); (3, "move"); (3, "swap"); (1, "swap_member"); (3, "assign_move");
+             (3, "assign_rv_rv"); (2, "assign_elems"); (2, "assign_elems_const"); (1, "assign_elems_named"); (1, "swap_elems"); (1, "swap_elems_named") ]
+(* n distinct statements; each runs in its own forked child on the same two operands *)
+let view_kinds n =
+  let rec go acc k = if k = 0 then List.rev acc else let x = view_kind () in if List.mem x acc then go acc (k - 1) else go (x :: acc) (k - 1) in
+  go [] (2 * n) |> List.filteri (fun j _ -> j < n)
+
 let gen_asg (vc : Views.cfg) : acase * string list =
   let dexts, dops, dv, _ = gen_view vc in
   let want = il (l_sizes dv.lay) in
   let r = List.length want in
-  let kind = weighted [ (5, "assign"); (2, "assign_const"); (2, "assign_rv"); (3, "move"); (3, "swap"); (3, "assign_move");
-                        (3, "assign_rv_rv"); (2, "assign_elems"); (2, "assign_elems_const") ] in
+  let kinds = view_kinds 3 in
   let nonempty = List.for_all (fun n -> n > 0) want in
   let mode = weighted [ (30, `Same); (30, `LeadSame); (40, `Differ) ] in
   let swap_two l a b = List.mapi (fun j x -> if j = a then List.nth l b else if j = b then List.nth l a else x) l in
   match mode with
   | `Same ->
       let sexts, sops = Assign.gen_src want in
-      ({ dexts; dops; sexts; sops; kind }, [ "asg_same"; "asg_" ^ kind ])
+      ({ dexts; dops; sexts; sops; kinds; alias = false }, [ "asg_same"] @ List.map (fun k -> "asg_" ^ k) kinds)
   | `LeadSame when r >= 3 && nonempty ->
       (* same leading extent, same number of elements, inner extents permuted *)
       let a = rnd_range 1 (r - 1) in
       let b = let b = rnd_range 1 (r - 1) in if b = a then (if a = r - 1 then 1 else a + 1) else b in
       let want' = swap_two want a b in
       let sexts, sops = Assign.gen_src want' in
-      ({ dexts; dops; sexts; sops; kind }, [ (if want' = want then "asg_same" else "asg_leadsame"); "asg_" ^ kind ])
+      ({ dexts; dops; sexts; sops; kinds; alias = false }, [ (if want' = want then "asg_same" else "asg_leadsame")] @ List.map (fun k -> "asg_" ^ k) kinds)
   | `LeadSame when r = 2 && nonempty && List.nth want 1 mod 2 = 0 && List.nth want 0 mod 2 = 0 ->
       (* rank 2: (a, b) vs (a, b): no inner permutation exists; use (a, b) vs (a/1, ...) -> fall back to a
          pair with equal counts and different leading extents: (a, b) vs (a*2, b/2) *)
       let want' = [ List.nth want 0 * 2; List.nth want 1 / 2 ] in
       let sexts, sops = Assign.gen_src want' in
-      ({ dexts; dops; sexts; sops; kind }, [ "asg_samecount"; "asg_" ^ kind ])
+      ({ dexts; dops; sexts; sops; kinds; alias = false }, [ "asg_samecount"] @ List.map (fun k -> "asg_" ^ k) kinds)
   | _ ->
       let k = rnd r in
       let want' = List.mapi (fun j n -> if j = k then (if n > 1 && chance 50 then n - 1 else n + 1) else n) want in
       let sexts, sops = Assign.gen_src want' in
-      ({ dexts; dops; sexts; sops; kind }, [ Printf.sprintf "asg_differ_dim%d" (min k 3); "asg_" ^ kind ])
+      ({ dexts; dops; sexts; sops; kinds; alias = false }, [ Printf.sprintf "asg_differ_dim%d" (min k 3)] @ List.map (fun k -> "asg_" ^ k) kinds)
+
+
+(* ---- ALIASING operands: two views over ONE root.  The common prefix program gives a view V; destination and source are
+   further sub-views of V.  The model decides (asrt_assign reads extensions only, never the base pointer): stopped before
+   the copy loop exactly when the extensions differ. ---- *)
+let gen_alias (vc : Views.cfg) : acase * string list =
+  let dexts, pre, v, _ = gen_view vc in
+  let ex = exts_of v in
+  let r = List.length ex in
+  let kinds = all_view_kinds in                 (* aliasing operands go through EVERY overload-selecting statement *)
+  (* one sliced per dimension, going round with rotated: the orientation is that of V again after r steps *)
+  let blocks (rs : (int * int) list) = List.concat_map (fun (a, b) -> [ OSliced (z a, z b); ORotated ]) rs in
+  let blocks0 (rs : (int * int) list) = List.concat_map (fun (a, b) -> [ OSliced (z a, z b); OReindexed (z 0); ORotated ]) rs in
+  let sizes = List.map (fun (f, l) -> max (l - f) 0) ex in
+  let some_room = List.exists (fun n -> n >= 1) sizes in
+  let mode = weighted [ (30, "samefirst"); (20, "overlap"); (12, "subblock"); (14, "rowcol"); (8, "identical"); (10, "strided"); (6, "rev") ] in
+  let mode = if mode = "rowcol" && r < 2 then "samefirst" else mode in
+  let mode = if not some_room && mode <> "identical" then "identical" else mode in
+  let mk d s tag = ({ dexts; dops = pre @ d; sexts = dexts; sops = pre @ s; kinds; alias = true }, [ "alias_" ^ tag; "asg_alias" ] @ List.map (fun k -> "asg_" ^ k) kinds) in
+  match mode with
+  | "samefirst" ->
+      (* same first element, same strides, lengths differ in at least one dimension (70%) or in none (control) *)
+      let la = List.map (fun n -> rnd_range (min n 1) n) sizes in
+      let equal = chance 30 in
+      let k = pick (List.filter (fun k -> List.nth sizes k >= 1) (List.init r (fun k -> k))) in
+      let lb = List.mapi (fun j a -> let n = List.nth sizes j in
+                           if equal then a else if j = k then (let b = rnd_range 0 n in if b = a then (if a > 0 then a - 1 else a + 1) else b)
+                           else if chance 30 then rnd_range (min n 1) n else a) la in
+      let rng l = List.map2 (fun (f, _) n -> (f, f + n)) ex l in
+      mk (blocks (rng la)) (blocks (rng lb)) (if equal then "samefirst_equal" else "samefirst_differ")
+  | "overlap" ->
+      (* windows of equal lengths shifted against each other; sliced keeps the indices, so the extensions differ unless both
+         are reindexed to 0 (then: a valid assignment between overlapping blocks) *)
+      let w = List.map (fun n -> if n = 0 then (0, 0, 0) else let m = rnd_range 1 n in (m, rnd_range 0 (n - m), rnd_range 0 (n - m))) sizes in
+      let ra = List.map2 (fun (f, _) (m, a, _) -> (f + a, f + a + m)) ex w and rb = List.map2 (fun (f, _) (m, _, b) -> (f + b, f + b + m)) ex w in
+      if chance 50 then mk (blocks0 ra) (blocks0 rb) "overlap_reindexed_equal" else mk (blocks ra) (blocks rb) "overlap_shifted"
+  | "subblock" ->
+      let w = List.map (fun n -> if n = 0 then (0, 0, 0, 0) else
+                         let m = rnd_range 1 n in let a = rnd_range 0 (n - m) in let m' = rnd_range 1 m in let c = rnd_range 0 (m - m') in (m, a, m', c)) sizes in
+      let outer = List.map2 (fun (f, _) (m, a, _, _) -> (f + a, f + a + m)) ex w in
+      let inner = List.map2 (fun (f, _) (_, a, m', c) -> (f + a + c, f + a + c + m')) ex w in
+      let re = chance 40 in
+      let b = if re then blocks0 else blocks in
+      if chance 50 then mk (b outer) (b inner) (if re then "subblock_dst_outer_reindexed" else "subblock_dst_outer")
+      else mk (b inner) (b outer) (if re then "subblock_dst_inner_reindexed" else "subblock_dst_inner")
+  | "rowcol" ->
+      (* a row and a column (rank 2), in general V[i] and V.rotated()[j]: they cross in one element *)
+      let (f0, l0) = List.nth ex 0 and (f1, l1) = List.nth ex 1 in
+      if l0 <= f0 || l1 <= f1 then mk [] [] "identical"
+      else begin
+        let i0 = rnd_range f0 (l0 - 1) and j0 = rnd_range f1 (l1 - 1) in
+        let d = [ OIndex (z i0) ] and s = [ ORotated; OIndex (z j0) ] in
+        let d, s = if chance 40 then (d @ [ OReindexed (z 0) ], s @ [ OReindexed (z 0) ]) else (d, s) in
+        if chance 50 then mk d s "row_vs_column" else mk s d "column_vs_row"
+      end
+  | "strided" ->
+      let p = rnd_range 1 3 and q = rnd_range 1 3 in
+      let off = if List.nth sizes 0 >= 2 && chance 40 then [ ODropped (z 1) ] else [] in
+      mk [ OStrided (z p) ] (off @ [ OStrided (z q) ]) (if p = q && off = [] then "strided_equal" else "strided_differ")
+  | "rev" ->
+      (* the same elements in opposite order along the leading dimension: equal extents only if reversed keeps them *)
+      mk [] [ OReversed ] "reversed"
+  | _ ->
+      let la = List.map (fun n -> rnd_range (min n 1) n) sizes in
+      let rng = List.map2 (fun (f, _) n -> (f, f + n)) ex la in
+      mk (blocks rng) (blocks rng) "identical"
+
+(* ---- array_ref assignment (whole contiguous roots; the ARef class): separate buffers or two array_refs over one buffer ---- *)
+let gen_aref (rebased : bool) : acase * string list =
+  let r = weighted [ (3, 1); (5, 2); (3, 3); (1, 4) ] in
+  let want = List.init r (fun _ -> weighted [ (1, 0); (2, 1); (4, 2); (4, 3); (2, 4) ]) in
+  let firsts = List.init r (fun _ -> if rebased && chance 60 then rnd_range (-2) 3 else 0) in
+  let kinds = aref_kinds in
+  let alias = chance 50 in
+  let swap_two l a b = List.mapi (fun j x -> if j = a then List.nth l b else if j = b then List.nth l a else x) l in
+  let mode = weighted [ (30, "equal"); (25, "permuted"); (30, "offbyone"); (15, "shifted") ] in
+  let want', firsts', tag =
+    match mode with
+    | "permuted" when r >= 2 -> let a = rnd r in let b = (a + 1 + rnd (r - 1)) mod r in (swap_two want a b, firsts, "permuted")
+    | "offbyone" | "permuted" -> let k = rnd r in (List.mapi (fun j n -> if j = k then (if n > 1 && chance 50 then n - 1 else n + 1) else n) want, firsts, "offbyone")
+    | "shifted" -> let k = rnd r in (want, List.mapi (fun j f -> if j = k then f + 1 else f) firsts, "shifted")
+    | _ -> (want, firsts, "equal") in
+  let mkx w f = List.map2 (fun n f -> (f, f + n)) w f in
+  ({ dexts = mkx want firsts; dops = []; sexts = mkx want' firsts'; sops = []; kinds; alias },
+   [ "aref_" ^ tag ^ (if alias then "_alias" else "") ] @ List.map (fun k -> "asg_" ^ k) kinds @ (if alias then [ "asg_alias" ] else []))
 
 (* ---------------- running a given text ---------------- *)
 let run_text (text : string) (obs : Buffer.t) : unit =
@@ -161,19 +303,22 @@ let run_text (text : string) (obs : Buffer.t) : unit =
             (function
               | "oob" :: path :: toks -> incr n; pr obs (death_line id !n v path (List.map int_of_string toks))
               | _ -> ())
-            lines in
+            lines;
+          let m = ref 0 in
+          List.iter (function "xop" :: toks -> incr m; pr obs (xop_line id !m v (Views.parse_op toks)) | _ -> ()) lines in
         Views.run_text ~extra block obs
       end else begin
         let rec pairs = function a :: b :: t -> (int_of_string a, int_of_string b) :: pairs t | _ -> [] in
-        let c = ref { dexts = []; dops = []; sexts = []; sops = []; kind = "assign" } in
+        let c = ref { dexts = []; dops = []; sexts = []; sops = []; kinds = []; alias = false } in
         List.iter
           (fun line ->
             match Views.words line with
             | "droot" :: _ :: rest -> c := { !c with dexts = pairs rest }
             | "sroot" :: _ :: rest -> c := { !c with sexts = pairs rest }
+            | "salias" :: _ :: rest -> c := { !c with sexts = pairs rest; alias = true }
             | "dop" :: toks -> c := { !c with dops = !c.dops @ [ Views.parse_op toks ] }
             | "sop" :: toks -> c := { !c with sops = !c.sops @ [ Views.parse_op toks ] }
-            | [ "asg"; k ] -> c := { !c with kind = k }
+            | [ "asg"; k ] -> c := { !c with kinds = !c.kinds @ [ k ] }
             | _ -> ())
           (String.split_on_char '\n' block);
         (match asg_line cid !c with Some l -> pr obs l | None -> pr obs (Printf.sprintf "X %s 0 out-of-domain" cid));
@@ -200,6 +345,7 @@ let () =
        let prefix = get "--prefix" "d" args in
        let c = { Views.maxrank = geti "--maxrank" 4; maxops = geti "--maxops" 4; rebased = has "--rebased"; maxd = 6 } in
        let n_asg = count * geti "--asg-pct" 35 / 100 in
+       let alias_pct = geti "--alias-pct" 40 and aref_pct = geti "--aref-pct" 20 in
        for k = 1 to count - n_asg do
          let id = Printf.sprintf "%s%d" prefix k in
          let tail id v prog obs =
@@ -211,6 +357,9 @@ let () =
                pr obs (death_line id !n v path idx);
                "oob_" ^ what ^ "_" ^ path)
              (gen_oob v)
+           @ (let m = ref 0 in
+              List.map (fun (o, what) -> incr m; pr prog ("xop " ^ Views.op_text o); pr obs (xop_line id !m v o); "xop_" ^ what)
+                (if has "--no-xop" then [] else gen_xop v))
            @ [ Printf.sprintf "oob_rank%d" (List.length v.lay) ] in
          let kinds = Views.gen_case ~with_probes:false ~tail c id prog obs in
          List.iter bump kinds
@@ -219,7 +368,10 @@ let () =
        for k = 1 to n_asg do
          let id = Printf.sprintf "%sa%d" prefix k in
          let rec go tries =
-           let cs, kinds = gen_asg ca in
+           let cs, kinds =
+             if k mod 20 < alias_pct / 5 then gen_alias ca
+             else if k mod 20 >= 20 - aref_pct / 5 then gen_aref (k mod 3 = 0)
+             else gen_asg ca in
            match asg_line id cs with
            | Some l -> Buffer.add_string prog (asg_text id cs); pr obs l; pr obs ("E " ^ id); List.iter bump kinds
            | None -> if tries > 0 then go (tries - 1) in
